@@ -185,24 +185,44 @@ def rule_handover_keyed_by_subgraph(ctx: Ctx, out: Collector) -> None:
     overwrite each other."""
     n = 0
     seen = set()
+
+    def mentions_data(t) -> bool:
+        """the stored value is the `.data` of something (the Recurrent marker a destination returned)"""
+        if isinstance(t, tuple):
+            if t and t[0] == 'attr' and t[2] == 'data':
+                return True
+            return any(mentions_data(x) for x in t)
+        return False
+
     for fid, g in ctx.run_graphs().items():
         for ev in g.events('store'):
-            if ev.info.get('how') != 'item':
+            if ev.info.get('how') != 'item' or ev.info.get('value') is None:
                 continue
             tgt = ev.info['target']
+            if not mentions_data(sym.term(ctx.p, ev.info['value'], ev.inst)):
+                continue
             recv = sym.term(ctx.p, tgt.value, ev.inst)
-            if not (isinstance(recv, tuple) and recv[0] == 'attr' and recv[1] == ('param', 'self') and 'additional' in recv[2]):
+            # the key of the hand-over: the subscript of a store into a field of the manager, or - when the store goes into a
+            # dictionary taken from such a field (`self.f.setdefault(k, {})[name] = data`) - the key that dictionary is kept under
+            key_t = None
+            if isinstance(recv, tuple) and recv[0] == 'attr':
+                key_t = sym.term(ctx.p, tgt.slice, ev.inst)
+            elif isinstance(recv, tuple) and recv[0] == 'call' and len(recv) > 2 and len(recv[2]) >= 2 \
+                    and recv[1].split('.')[-1].lstrip('?') in ('setdefault', 'get', '__getitem__'):
+                key_t = recv[2][1]
+            elif isinstance(recv, tuple) and recv[0] in ('idx', 'item', 'elem') and len(recv) > 2:
+                key_t = recv[2]
+            if key_t is None:
                 continue
             cons = ctx.construct(ev) + ' [hand-over keyed by the subgraph]'
             if cons in seen:
                 continue
             seen.add(cons)
             n += 1
-            key = tgt.slice
-            if isinstance(key, ast.Tuple) and len(key.elts) >= 2:
-                out.ok('RC-10', cons, ev.where(), f'keyed by {unparse(key)}')
+            if isinstance(key_t, tuple) and key_t and key_t[0] == 'tuple' and len(key_t[1]) >= 2:
+                out.ok('RC-10', cons, ev.where(), f'keyed by {sym.show(key_t)}')
             else:
-                out.bad('RC-10', cons, ev.where(), f'the hand-over is keyed by the start node alone ({unparse(key)}): two recurrent subgraphs '
+                out.bad('RC-10', cons, ev.where(), f'the hand-over is keyed by the start node alone ({sym.show(key_t)}): two recurrent subgraphs '
                         f'that share a start node and are active at the same time overwrite each other\'s data and re-arm each other\'s '
                         f'nodes - the start node runs twice concurrently and one destination is re-executed with the value computed for '
                         f'the other', props={'C04', 'C11'})
